@@ -133,6 +133,36 @@ func (p *termParser) primary() (TVal, error) {
 		}
 		return U(uint64(varintSize(v.U))), nil
 	}
+	for _, bn := range []string{"builtin:max(", "builtin:min("} {
+		if !strings.HasPrefix(r, bn) {
+			continue
+		}
+		// max/min of integers (signed comparison: the analysed code uses int)
+		p.pos += len(bn)
+		var best TVal
+		for i := 0; ; i++ {
+			v, err := p.expr()
+			if err != nil {
+				return v, err
+			}
+			if v.K != "u" {
+				return v, evalErr{"max/min of non-integer"}
+			}
+			if i == 0 || bn == "builtin:max(" && int64(v.U) > int64(best.U) || bn == "builtin:min(" && int64(v.U) < int64(best.U) {
+				best = v
+			}
+			if strings.HasPrefix(p.rest(), ", ") {
+				p.pos += 2
+				continue
+			}
+			break
+		}
+		if !strings.HasPrefix(p.rest(), ")") {
+			return best, evalErr{"expected ) after max/min arguments"}
+		}
+		p.pos++
+		return best, nil
+	}
 	if m := reEndian.FindStringSubmatch(r); m != nil {
 		p.pos += len(m[0])
 		v, err := p.expr()
